@@ -25,6 +25,22 @@ def run(ctx):
                                                        "VERIF_KEYS": ctx.keys()}, workers=NCPU, timeout=3000, name="mirror-gen")
     if ctx.tlc_hard_errors(res) or res["violated"]:
         raise ToolError("TLC failed generating mirror pairs: %s" % (res["errors"] + res["violated"])[:3])
+    # material configurations around the evaluation's thresholds (placement families, heavily sliced)
+    variants = ["KQQ", "KQR", "KQRR", "KQRB", "KRRR", "KRR", "KBB", "KBN", "KQ", "KR", "KNN"]
+    # K+Q+Q is exactly the evaluation's endgame threshold (1800): always included
+    picks = (["KQQ"] + [variants[1 + (ctx.seed + i) % (len(variants) - 1)] for i in range(2)]) if quick else variants
+    fam_outs = []
+    for i, v in enumerate(picks):
+        n = {"KQ": 1, "KR": 1}.get(v, len(v) - 1)
+        slices = {1: 64, 2: 1792, 3: 1792}[n]
+        r2 = ctx.tlc("Families", "Families_search.cfg", env={"VERIF_FAMILY": "mate", "VERIF_VARIANT": v, "VERIF_FILE": 0, "VERIF_EDGE": 0 if n < 3 else 1,
+                     "VERIF_NEAR": 0 if n < 3 else 1, "VERIF_HM": 0, "VERIF_EXTRA": "", "VERIF_SLICE": (ctx.seed * 11 + i) % slices, "VERIF_SLICES": slices,
+                     "VERIF_KEYS": ctx.keys()}, workers=NCPU, timeout=3000, name="mirror-fam-" + v)
+        if ctx.tlc_hard_errors(r2) or r2["violated"]:
+            raise ToolError("TLC failed generating material family %s: %s" % (v, (r2["errors"] + r2["violated"])[:3]))
+        fam_outs.append(r2)
+        ctx.cov["states"] += r2["distinct"]
+        ctx.cov["transitions"] += r2["generated"]
     # keep the lines the specification marks as promotion-free at the root
     keep = os.path.join(ctx.work, "pairs.txt")
     n = 0
@@ -33,6 +49,15 @@ def run(ctx):
             if line.startswith('<<"SPOS"') and '\\"nopromo\\":true' in line:
                 out.write(line)
                 n += 1
+        cap = 700 if quick else 20000
+        for r2 in fam_outs:
+            k = 0
+            for line in open(r2["out_path"], errors="replace"):
+                if line.startswith('<<"SPOS"') and '\\"nopromo\\":true' in line and k < cap:
+                    out.write(line)
+                    n += 1
+                    k += 1
+            os.remove(r2["out_path"])
     os.remove(res["out_path"])
     jobs = max(1, NCPU - 2)
     parts = [open(os.path.join(ctx.work, "pairs.%d" % i), "w") for i in range(jobs)]
